@@ -12,6 +12,7 @@
 import Model.LineSpec
 import Proofs.Row
 import Proofs.Order
+import Proofs.LineKeys
 
 namespace Jl.C03
 open Jl Jl.Value Jl.Template
@@ -117,5 +118,37 @@ theorem subrow_counterexample (ext : Ext) :
       .ok (.cell (.gomap (.cons [0x61, 0x61] .nil (.cons [0x7A, 0x7A] .nil .nil))) .auto .none) := by
   simp [cloneValue, newValue, Cast.castTo, stubTables, Cast.evalBranch, Cast.evalE, Cells.raw, Cells.rawList,
     Cells.format, Cells.rawType, Cells.sortKV, Cells.insertKV, Cells.bytesLt, DynMap.ofList]
+
+/-! ### On the emitted bytes (`Proofs/LineLevel`) -/
+
+open Jl.JsonQuote (sanitize) in
+/-- C03 on the BYTES of an emitted line, for every input text, every pair of templates with
+    distinct column names and every cast table: the line is an object text and a newline, and the
+    object a JSON reader delivers for it has, in order, the output template's visible columns in
+    declaration order, then every other key in the order input-template columns / first appearance
+    in the input text — each name as the escaper writes it (`sanitize`, the identity on well-formed
+    UTF-8).  `FloatTextOK`: the standard-library parameter renders floats as number literals. -/
+theorem emitted_bytes_keys (env : Env) (ti to : Tmpl) (line b : Bytes)
+    (h : jlLine env ti to line = .ok (b, none)) (hx : JsonPrint.FloatTextOK env.ext)
+    (hti : (OMap.keys ti).Nodup) (hto : (OMap.keys to).Nodup) :
+    ∃ body t, b = body ++ [0x0A] ∧ Json.unmarshal body = (t, true) ∧
+      LineSpec.keysOf t =
+        (((OMap.keys to).filter fun k => Order.formatAt to k != some .hidden) ++
+          (Order.appendNew (OMap.keys ti) (Order.inputKeys line)).filter
+            (fun k => decide (k ∉ OMap.keys to))).map sanitize :=
+  LineLevel.emitted_text_keys env ti to line b h hx hti hto
+
+open Jl.JsonQuote (sanitize) in
+/-- The same in the words of the oracle the correspondence check applies to the implementation's
+    output (`LineSpec.expectedKeys`, first clause of `orderViolation`), for templates declaring the
+    same names, as every `jl` definition does. -/
+theorem emitted_bytes_keys_expected (env : Env) (ti to : Tmpl) (line b : Bytes)
+    (h : jlLine env ti to line = .ok (b, none)) (hx : JsonPrint.FloatTextOK env.ext)
+    (hto : (OMap.keys to).Nodup) (hperm : (OMap.keys ti).Perm (OMap.keys to)) :
+    ∃ body t, b = body ++ [0x0A] ∧ Json.unmarshal body = (t, true) ∧
+      LineSpec.keysOf t =
+        (LineSpec.expectedKeys (LineLevel.leafCols to)
+          (LineSpec.keysOf (Json.unmarshal line).1)).map sanitize :=
+  LineLevel.emitted_text_keys_expected env ti to line b h hx hto hperm
 
 end Jl.C03
